@@ -78,8 +78,7 @@ def analyse(ctx):
                         continue
                     e = st.get('expr') if st['k'] == 's_expr' else None
                     if e is None:
-                        ok_reset = False
-                        break
+                        continue
                     if e.get('k') == 'mcall' and e['method'] == 'truncate' and e['args'] and e['args'][0].get('value') == 1 and target(e['recv']) in ('contexts', 'scopes'):
                         what.add(target(e['recv']))
                         continue
@@ -103,8 +102,9 @@ def analyse(ctx):
                         if tg and more:
                             what.add(tg)
                             continue
-                    ok_reset = False
-                    break
+                    # a statement that is not one of the recognised cut-backs resets nothing (what it leaves open is reported
+                    # by R17.2 at the error exits of the driver)
+                    continue
                 if ok_reset and what:
                     c.symtab_reset[name] = what
             if f['output'].replace(' ', '').replace('->', '') == 'usize' and any(i_.get('self') and not i_.get('mut') for i_ in f['inputs']):
